@@ -1,6 +1,6 @@
 // appended to crates/air-lib/interpreter-data/src/interpreter_data/verification.rs
 // native job C03.sign_verify (bounded): the real signer (PeerCidTracker::register + gen_signature, real Ed25519) and the real
-// verifier (DataVerifier::new + verify) agree on every trace of <= 4 (thorough: <= 5) CID-bearing states drawn from 6 kinds over two
+// verifier (DataVerifier::new + verify) agree on every trace of <= 3 (thorough: <= 4) CID-bearing states drawn from 6 kinds over two
 // peers, REPEATED CIDs included (the signed object is the sorted MULTISET of a peer's CIDs): data signed the way the interpreter
 // signs it is accepted; the same data with one of the signer's states removed or duplicated after signing, or under another salt,
 // is rejected.
@@ -64,7 +64,7 @@ mod verif_native_sign_verify {
         let w = world(&peers);
         let kinds = w.states.len();
         let salt = "particle-id";
-        let max_len = if thorough { 5usize } else { 4 };
+        let max_len = if thorough { 4usize } else { 3 };
         let mut cases = 0u64;
         let fail = |what: String| -> ! {
             println!("VERIF-JOB C03.sign_verify FAIL {what}");
